@@ -837,9 +837,24 @@ func c08Explore(ctx *engine.Ctx) *engine.Report {
 					}
 				}
 			}
-			results, err := engine.RunTasks(ctx, "c08", tasks)
-			if err != nil {
-				rep.HarnessErr = append(rep.HarnessErr, err.Error())
+			// in batches, so that the deadline is honoured inside a level too and no worker holds a whole level's logs
+			var results []engine.TaskResult
+			cutShort := false
+			const batch = 6000
+			for off := 0; off < len(tasks); off += batch {
+				if time.Now().After(ctx.Deadline) {
+					cutShort = true
+					break
+				}
+				end := off + batch
+				if end > len(tasks) {
+					end = len(tasks)
+				}
+				rs, err := engine.RunTasks(ctx, "c08", tasks[off:end])
+				if err != nil {
+					rep.HarnessErr = append(rep.HarnessErr, err.Error())
+				}
+				results = append(results, rs...)
 			}
 			var next [][]int
 			for i, r := range results {
@@ -866,8 +881,11 @@ func c08Explore(ctx *engine.Ctx) *engine.Report {
 				}
 				outcomes[engine.Hash(o.Canon)] = true
 				scStates++
-				logs[fmt.Sprint(t.Choices)] = o.Events
-				next = append(next, t.Choices)
+				if dev < maxDev {
+					// the event log is needed only to extend the schedule by one more deviation
+					logs[fmt.Sprint(t.Choices)] = o.Events
+					next = append(next, t.Choices)
+				}
 				if o.Canon != b0.Canon {
 					cands = append(cands, engine.Candidate{Violation: engine.Violation{Clause: sc, Kind: "order-dependent@" + devSite,
 						Detail: fmt.Sprintf("scenario %s: with the map range at %s taking order #%d of its %d keys (schedule %v) the canonicalised result differs from the canonical schedule's: %s",
@@ -883,6 +901,11 @@ func c08Explore(ctx *engine.Ctx) *engine.Report {
 				}
 			}
 			frontier = next
+			if cutShort {
+				// the deadline fell inside this level: what ran is judged, the level does not count as completed
+				exhaustive = false
+				break
+			}
 			completed = dev
 		}
 		sites := map[string]bool{}
